@@ -467,6 +467,13 @@ static bool check_contains(const std::string& op, const Shadow& R, const std::ve
   }
   return true;
 }
+// component invariants first: observing a component whose OK() is false may crash
+static bool check_comps_OK(const std::string& op, const IProd& A) {
+  bool o1 = true, o2 = true; A.comps_OK(o1, o2); checked(); hx::count("comp_OK_checks");
+  if (o1 && o2) return true;
+  violation(KP + op + ".OK_false:" + (!o1 ? "d1" : "d2"), "OK() of component " + std::string(!o1 ? "d1" : "d2") + " is false after the operation:\n" + A.dump().substr(0, 1500));
+  return false;
+}
 static bool check_OK(const std::string& op, const IProd& A) {
   checked(); hx::count("OK_checks");
   if (A.OK()) return true;
@@ -506,6 +513,7 @@ static bool run_mutator(IProd& A, IProd& B, bool alias, const Shadow& SA, const 
   }
   try { m.apply(A, B); }
   catch (const std::invalid_argument& e) { if (!m.may_reject) { violation(KP + m.name + ".unexpected_exception:invalid_argument", e.what()); return false; } rejected = true; hx::count("rejected." + m.name); }
+  if (!check_comps_OK(m.name, A)) return false;
   Shadow RA = observe(A);
   std::vector<Vec> exp; m.expected(SA, SB, exp);
   std::vector<ESys> Ts; if (!g_grid_pair && m.lp) m.lp(SA, SB, Ts);
@@ -593,6 +601,7 @@ static bool run_query(IProd& A, IProd& B, bool alias, const Shadow& SA, const Sh
   default: A.memory(); (void) A.hash_code(); break;
   }
   // every const member may at most reduce
+  if (!check_comps_OK(op, A)) return false;
   Shadow RA = observe(A);
   if (!check_reduction(op, SA, RA, "")) return false;
   if (binary && !alias) { Shadow RB = observe(B); if (!check_reduction(op, SB, RB, "arg-")) return false; }
@@ -731,6 +740,7 @@ static bool run_dims(const IProd& A, IProd& B, const Shadow& SA, const Shadow& S
     if (lp) Ts.push_back(ref::def_concat(SA.conj, n, SB.conj, m)); }
   hx::count("op." + op);
   if (nontrivial(SA)) hx::distinct(F->inst + "|" + op + "|" + inter_class(SA));
+  if (!check_comps_OK(op, C)) return false;
   Shadow RC = observe(C);
   if (!check_contains(op, RC, exp, Ts, std::function<std::string(const Vec&)>(), "receiver " + show_shadow(SA))) return false;
   if (!check_OK(op, C)) return false;
@@ -795,6 +805,7 @@ static bool run_ctor(std::vector<IProd*>& pool, int ai, const Shadow& SA, const 
       Shadow S2 = observe(*src); if (!check_reduction(op, SS, S2, "arg-")) return false; }
   } catch (const std::invalid_argument&) { hx::count("rejected." + op); return true; }   // documented for systems a component cannot take
   if (nontrivial(SA)) hx::distinct(F->inst + "|" + op + "|" + inter_class(SA));
+  if (!check_comps_OK(op, *R)) return false;
   Shadow RR = observe(*R);
   if (!check_contains(op, RR, exp, Ts, std::function<std::string(const Vec&)>(), "")) return false;
   if (!check_OK(op, *R)) return false;
